@@ -30,18 +30,18 @@ theorem Core.init (V : St → List Val) (s : St) (hd : s.descs = []) (hl : s.lin
 /-- THE walk theorem: for recording primitives and a template that satisfies `WFlinks`, from a fresh state,
     the links recorded are `Spec.links` of the items recorded — with the times at which the run processed
     235000 as second input — provided the items are `markersOk`. -/
-theorem walk_links_eq_spec {P : Prims} {V : St → List Val} (hR : Rec P V) (t : List Desc) (hwf : WFlinks t)
-    (s0 s : St) (hd : s0.descs = []) (hl : s0.links = []) (hr : s0.regs = {}) (hv : V s0 = [])
+theorem walk_links_eq_spec {P : Prims} {V : St → List Val} {X : St → Prop} (hR : Rec P V X) (t : List Desc) (hwf : WFlinks t)
+    (s0 s : St) (hd : s0.descs = []) (hl : s0.links = []) (hr : s0.regs = {}) (hv : V s0 = []) (hx : X s0)
     (h : walkList P t s0 = .ok s) (hok : markersOk (items V s) = true) :
     s.links.reverse = Spec.links (items V s) (cancelsL P t s0) ∧ (V s).length = s.descs.length ∧
       s.vals.length = s0.vals.length := by
-  have h0 : CorePh V .idle s0 [] :=
-    ⟨Core.init V s0 hd hl hr hv, by rw [hr]; exact fun x => nomatch x⟩
+  have h0 : CorePhX V X .idle s0 [] :=
+    ⟨⟨Core.init V s0 hd hl hr hv, by rw [hr]; exact fun x => nomatch x⟩, hx⟩
   have := presG_walkL hR t .idle hwf s0 s [] h hok h0
   rw [List.nil_append] at this
   have hg := grows_walkList hR t s0 s (by rw [hv, hd]; rfl) h
-  refine ⟨?_, this.1.len, hg.2.2⟩
-  rw [this.1.links, linksFold_eq]
+  refine ⟨?_, this.1.1.len, hg.2.2.1⟩
+  rw [this.1.1.links, linksFold_eq]
   rfl
 
 /-! ### the decoder's primitives record -/
@@ -70,7 +70,7 @@ theorem read_shape {α : Type} (s : St) (r : R α) (a : α) (s' : St) (h : s.rea
   · injection h with h; injection h with h1 h2; exact ⟨_, h2.symm⟩
 
 theorem decLastValues_spec (k : Nat) (s : St) (l : List Val) (h : decLastValues k s = .ok l) (hk : 1 ≤ k)
-    (_hl : k ≤ (decV s).length) : l = Spec.lastN k (decV s) := by
+    (_hl : k ≤ (decV s).length) (_ : True) : l = Spec.lastN k (decV s) := by
   unfold decLastValues at h
   cases hv : s.vals with
   | nil => rw [hv] at h; cases h
@@ -84,7 +84,7 @@ theorem decLastValues_spec (k : Nat) (s : St) (l : List Val) (h : decLastValues 
     simp only
     rw [List.reverse_take, List.length_reverse]
 
-theorem decPrimsU_rec : Rec decPrimsU decV where
+theorem decPrimsU_rec : Rec decPrimsU decV (fun _ => True) where
   quiet := decPrimsU_quiet
   numeric := by
     intro dd n sc r s s' h
@@ -210,5 +210,12 @@ theorem decPrimsU_rec : Rec decPrimsU decV where
       simp [St.pushAll, St.pushDesc, setNewRefval, St.setRegs]
   setRegs := decV_setRegs
   addLink := decV_addLink
+  numericX := fun _ _ _ _ _ _ _ _ => trivial
+  stringX := fun _ _ _ _ _ _ => trivial
+  codeflagX := fun _ _ _ _ _ _ => trivial
+  constantX := fun _ _ _ _ _ _ => trivial
+  newRefvalX := fun _ _ _ _ _ _ => trivial
+  setRegsX := fun _ _ _ => trivial
+  addLinkX := fun _ _ _ => trivial
 
 end Bufr.C07
